@@ -58,7 +58,6 @@ def nnErrKind : NNErr → String
   | .dZero => "Internal:ZeroDivisionError:dZero"
   | .singleton => "ValueError:singleton"
   | .indexError => "Internal:IndexError:indexError"
-  | .unrecognized => "ValueError:unrecognized"
 
 def outListT (l : List Float) : String := s!"{l.length} " ++ " ".intercalate (l.map fb)
 
